@@ -440,7 +440,7 @@ func ruleSegmentIDs(r *Run, rule string, k *storeKind) {
 			// argmax shape: phi of (max, id) controlled by id > max
 			allInstrs(initFn, func(in ssa.Instruction) {
 				if bo, ok := in.(*ssa.BinOp); ok && bo.Op == token.GTR {
-					if (strings.Contains(ci.S(bo.X), "strconv.ParseUint(") || parsedByHelper(w, bo.X) != nil) && (bo.Y == ssa.Value(ph) || isPhiOf(bo.Y, ph)) {
+					if (phiLeafContains(ci, bo.X, "strconv.ParseUint(", 4) || parsedByHelper(w, bo.X) != nil) && (bo.Y == ssa.Value(ph) || isPhiOf(bo.Y, ph)) {
 						okMax = true
 					}
 				}
@@ -604,7 +604,7 @@ func ruleOpenIsLazy(r *Run, rule string, k *storeKind) {
 										if c2, isC := ex.Tuple.(*ssa.Call); isC {
 											g := staticCallee(c2.Common())
 											src = "error of " + shortCallee(c2.Common())
-											ok = g != nil && allowed[g.Name()]
+											ok = g != nil && allowed[fnShortName(g)]
 										}
 									}
 								}
@@ -1053,7 +1053,7 @@ func ruleOwnership(r *Run, p string, k *storeKind) {
 						return false
 					}
 					g := staticCallee(call.Common())
-					return g != nil && (g == rel || g.Name() == "close" && len(callsIn(g, func(cc *ssa.CallCommon) bool { return staticCallee(cc) == rel })) > 0)
+					return g != nil && (g == rel || fnShortName(g) == "close" && len(callsIn(g, func(cc *ssa.CallCommon) bool { return staticCallee(cc) == rel })) > 0)
 				})
 				ok = esc == nil
 			}
@@ -1065,23 +1065,24 @@ func ruleOwnership(r *Run, p string, k *storeKind) {
 		fn := k.Close
 		name := w.Name(fn)
 		c := NewCanon(w)
+		gate := findCloseGate(w, fn)
 		var closedIf *ssa.If
-		allInstrs(fn, func(in ssa.Instruction) {
-			if iff, ok := in.(*ssa.If); ok && c.S(iff.Cond) == "P0.closed" && closedIf == nil {
-				closedIf = iff
+		var closedSucc *ssa.BasicBlock
+		if gate != nil {
+			closedIf, closedSucc = gate.If, gate.Closed
+			if gate.Helper != nil {
+				r.Analysed(w.Name(gate.Helper))
 			}
-		})
+		}
+		_ = c
 		site := w.Pos(fn.Pos()) + " " + name
 		if closedIf == nil {
 			r.Bad(p+".CLOSED", "close:test", site, "Close does not test the closed flag")
 		} else {
-			t := closedIf.Block().Succs[0]
-			okErr := false
-			if ret, ok := t.Instrs[len(t.Instrs)-1].(*ssa.Return); ok && classifyErr(ret) == ErrNonNil {
-				okErr = true
-			}
-			// no effect on the already-closed path
-			eff := reachAvoidAt(t, 0, func(in ssa.Instruction) bool {
+			t := closedSucc
+			// a second Close fails, and has no effect on the way (resolved per path: the error may travel through a
+			// variable before it is returned)
+			eff := onlyFailsFrom(t, func(in ssa.Instruction) bool {
 				if call, ok := in.(*ssa.Call); ok {
 					n := calleeName(call.Common())
 					if n == "builtin:close" || strings.HasSuffix(n, ".close") || strings.HasSuffix(n, "WaitGroup).Wait") {
@@ -1089,28 +1090,10 @@ func ruleOwnership(r *Run, p string, k *storeKind) {
 					}
 				}
 				return false
-			}, func(in ssa.Instruction) bool { _, isRet := in.(*ssa.Return); return isRet })
-			r.Check(okErr && eff == nil, p+".CLOSED", "close:idempotent", w.InstrPos(closedIf)+" "+name, "a second Close returns an error before any effect", "a second Close has effects or does not fail")
-			// set under the same lock acquisition as the test
-			var lock, unlock, set ssa.Instruction
-			allInstrs(fn, func(in ssa.Instruction) {
-				switch x := in.(type) {
-				case *ssa.Call:
-					n := calleeName(x.Common())
-					if n == "(*sync.RWMutex).Lock" && lock == nil {
-						lock = in
-					}
-					if n == "(*sync.RWMutex).Unlock" && domInstr(closedIf, in) && unlock == nil && !t.Dominates(in.Block()) && in.Block() != t {
-						unlock = in
-					}
-				case *ssa.Store:
-					if c.S(x.Addr) == "P0.closed" {
-						set = in
-					}
-				}
 			})
-			okCS := lock != nil && set != nil && unlock != nil && domInstr(lock, closedIf) && domInstr(closedIf, set) && domInstr(set, unlock)
-			r.Check(okCS, p+".CLOSED", "close:test-and-set", site, "closed is tested and set inside one write-locked section", "the closed flag is not tested-and-set atomically (two Closes can both proceed)")
+			okErr := eff == nil
+			r.Check(okErr && eff == nil, p+".CLOSED", "close:idempotent", w.InstrPos(closedIf)+" "+name, "a second Close returns an error before any effect", "a second Close has effects or does not fail")
+			r.Check(gate.Atomic, p+".CLOSED", "close:test-and-set", site, "closed is tested and set inside one write-locked section", "the closed flag is not tested-and-set atomically (two Closes can both proceed)")
 		}
 		wait := callsTo(fn, "(*sync.WaitGroup).Wait")
 		var prov []*ssa.Call
@@ -1126,17 +1109,34 @@ func ruleOwnership(r *Run, p string, k *storeKind) {
 		}
 		r.Check(okRel, p+".RELEASE", "close:release-after-workers", site, "the lock is released after the workers (final flush) have stopped", "the lock is released before wg.Wait(): a new owner can open while the old one still writes")
 		// released on every path past the closed test
-		esc := reachAvoid(fn, nil, func(in ssa.Instruction) bool {
-			ret, ok := in.(*ssa.Return)
-			return ok && closedIf != nil && !closedIf.Block().Succs[0].Dominates(ret.Block()) && ret.Block() != closedIf.Block().Succs[0]
-		}, func(in ssa.Instruction) bool {
-			for _, pcall := range prov {
-				if in == ssa.Instruction(pcall) {
-					return true
+		var esc ssa.Instruction
+		if closedIf != nil {
+			paths, trunc := enumPaths(fn.Blocks[0], walkCfg{MaxVisits: 2, MaxPaths: 20000})
+			if trunc {
+				esc = fn.Blocks[0].Instrs[0]
+			}
+			for _, pth := range paths {
+				if pth.End != EndReturn || !pth.Feasible() {
+					continue
+				}
+				already, released := false, false
+				for _, b := range pth.Blocks {
+					if b == closedSucc {
+						already = true
+					}
+				}
+				for _, in := range pth.Instrs() {
+					for _, pcall := range prov {
+						if in == ssa.Instruction(pcall) {
+							released = true
+						}
+					}
+				}
+				if !already && !released {
+					esc = pth.Ret
 				}
 			}
-			return false
-		})
+		}
 		r.Check(esc == nil, p+".RELEASE", "close:always-releases", site, "every completed Close releases the lock (also when the final flush failed)", "Close can return without releasing the lock")
 	}
 	// CLOSED typestate on the exported operations
@@ -1154,6 +1154,113 @@ func indexFieldOfStore(k *storeKind) string {
 	return indexFieldOf(k.SearchT, k.T)
 }
 
+// closeGate describes the test-and-set of the closed flag that guards Close.
+type closeGate struct {
+	If     *ssa.If         // branch in Close that separates "already closed" from "this call closes"
+	Closed *ssa.BasicBlock // successor taken when the handle was already closed
+	Set    ssa.Instruction // instruction in Close after which the flag is set (the store, or the helper call)
+	Atomic bool            // test and set lie in one write-locked section
+	Helper *ssa.Function   // the same-receiver method holding the section, when it was extracted
+}
+
+// closeGateIn: the test-and-set written out in fn itself.
+func closeGateIn(w *World, fn *ssa.Function) *closeGate {
+	c := NewCanon(w)
+	var closedIf *ssa.If
+	allInstrs(fn, func(in ssa.Instruction) {
+		if iff, ok := in.(*ssa.If); ok && c.S(iff.Cond) == "P0.closed" && closedIf == nil {
+			closedIf = iff
+		}
+	})
+	if closedIf == nil {
+		return nil
+	}
+	t := closedIf.Block().Succs[0]
+	var lock, unlock, set ssa.Instruction
+	allInstrs(fn, func(in ssa.Instruction) {
+		switch x := in.(type) {
+		case *ssa.Call:
+			n := calleeName(x.Common())
+			if n == "(*sync.RWMutex).Lock" && lock == nil {
+				lock = in
+			}
+			if n == "(*sync.RWMutex).Unlock" && domInstr(closedIf, in) && unlock == nil && !t.Dominates(in.Block()) && in.Block() != t {
+				unlock = in
+			}
+		case *ssa.Store:
+			if c.S(x.Addr) == "P0.closed" {
+				set = in
+			}
+		}
+	})
+	okCS := lock != nil && set != nil && unlock != nil && domInstr(lock, closedIf) && domInstr(closedIf, set) && domInstr(set, unlock)
+	return &closeGate{If: closedIf, Closed: t, Set: set, Atomic: okCS}
+}
+
+// findCloseGate: the gate of Close, written inline or extracted into a method `g() bool` of the same receiver that
+// answers false exactly on its already-closed branch; Close then branches on that answer.
+func findCloseGate(w *World, fn *ssa.Function) *closeGate {
+	if g := closeGateIn(w, fn); g != nil {
+		return g
+	}
+	c := NewCanon(w)
+	for _, cs := range callsIn(fn, func(cc *ssa.CallCommon) bool {
+		g := staticCallee(cc)
+		return g != nil && g.Pkg == w.SPkg && g.Signature.Recv() != nil && len(cc.Args) == 1 && c.S(cc.Args[0]) == "P0" &&
+			g.Signature.Results().Len() == 1 && types.TypeString(g.Signature.Results().At(0).Type(), nil) == "bool"
+	}) {
+		call, ok := cs.(*ssa.Call)
+		if !ok {
+			continue
+		}
+		h := staticCallee(call.Common())
+		hg := closeGateIn(w, h)
+		if hg == nil || !hg.Atomic {
+			continue
+		}
+		// false ⇔ already closed
+		consistent := true
+		for _, ret := range returnsOf(h) {
+			k, isC := ret.Results[0].(*ssa.Const)
+			if !isC || k.Value == nil {
+				consistent = false
+				continue
+			}
+			onClosed := hg.Closed == ret.Block() || hg.Closed.Dominates(ret.Block())
+			if constant.BoolVal(k.Value) == onClosed {
+				consistent = false
+			}
+		}
+		if !consistent {
+			continue
+		}
+		// the branch on the answer
+		for _, ref := range *call.Referrers() {
+			v := ssa.Value(call)
+			neg := false
+			if u, ok := ref.(*ssa.UnOp); ok && u.Op == token.NOT {
+				v, neg = u, true
+			}
+			refs := v.Referrers()
+			if refs == nil {
+				continue
+			}
+			for _, r2 := range *refs {
+				iff, ok := r2.(*ssa.If)
+				if !ok || iff.Cond != v {
+					continue
+				}
+				closed := iff.Block().Succs[1] // answer false
+				if neg {
+					closed = iff.Block().Succs[0]
+				}
+				return &closeGate{If: iff, Closed: closed, Set: call, Atomic: true, Helper: h}
+			}
+		}
+	}
+	return nil
+}
+
 // closedTest finds the branch on <recv>.closed in fn: whether its true arm leaves with a non-nil error and whether the
 // flag is loaded while <recv>.mu is held (a lock call dominates the load and no unlock lies between them).
 func closedTest(w *World, fn *ssa.Function, recv string) (test *ssa.If, okErr, locked bool) {
@@ -1167,9 +1274,7 @@ func closedTest(w *World, fn *ssa.Function, recv string) (test *ssa.If, okErr, l
 		return nil, false, false
 	}
 	t := test.Block().Succs[0]
-	if ret, ok := t.Instrs[len(t.Instrs)-1].(*ssa.Return); ok && classifyErr(ret) == ErrNonNil {
-		okErr = true
-	}
+	okErr = onlyFailsFrom(t, nil) == nil
 	load, _ := test.Cond.(ssa.Instruction)
 	if load == nil {
 		return test, okErr, false
@@ -1200,6 +1305,21 @@ func closedTest(w *World, fn *ssa.Function, recv string) (test *ssa.If, okErr, l
 		}
 	}
 	return test, okErr, locked
+}
+
+// phiLeafContains: the canonical name of v, or of some value that can flow into v through phis, contains sub.
+func phiLeafContains(c *Canon, v ssa.Value, sub string, depth int) bool {
+	if strings.Contains(c.S(v), sub) {
+		return true
+	}
+	if ph, ok := v.(*ssa.Phi); ok && depth > 0 {
+		for _, e := range ph.Edges {
+			if e != v && phiLeafContains(c, e, sub, depth-1) {
+				return true
+			}
+		}
+	}
+	return false
 }
 
 // parsedByHelper: v is result #0 of a call to a comet function whose result #0 is, on some return, the value of
